@@ -18,6 +18,8 @@ func main() {
 	tier := flag.String("tier", "quick", "quick|thorough")
 	repo := flag.String("repo", "/repo", "repository root")
 	verif := flag.String("verif", "/verif", "verif root (evidence, known findings)")
+	goarch := flag.String("goarch", "", "analyse only this GOARCH (with -goarm) instead of the tier's configurations")
+	goarm := flag.String("goarm", "", "GOARM for -goarch arm")
 	list := flag.Bool("list", false, "list implemented properties")
 	debug := flag.String("debug", "", "debug: 'pkg/rel,Recv,Name' prints abstract outcomes")
 	flag.Parse()
@@ -75,6 +77,9 @@ func main() {
 			{Repo: abs, GOOS: "darwin", GOARCH: "arm64"},
 			{Repo: abs, GOOS: "windows", GOARCH: "amd64"},
 		}
+	}
+	if *goarch != "" {
+		cfgs = []core.Config{{Repo: abs, GOOS: "linux", GOARCH: *goarch, GOARM: *goarm}}
 	}
 	for _, cfg := range cfgs {
 		p, err := core.Load(cfg, 17)
